@@ -72,7 +72,7 @@ class SIndexerTok(Sym):
 
 class FindJobIds(Contract):
     target = f"{PRJ}.Project._find_job_ids"
-    properties = ("C06", "C07")
+    properties = ("C06", "C07", "C08")
     ctx_class = FindCtx
 
     def cases(self):
